@@ -328,7 +328,7 @@ Definition astepA (sh : mshared) (a : anchor) (p : apc) : anchor * mshared * are
       let '(L', lp', _, _) := pstep L lp [] in
       let a' := set_lk a L' in
       match lp' with
-      | Ready m => (a', sh, lcont a' c m, [])
+      | Ready m | Done m => (a', sh, lcont a' c m, [])      (* Done: never reached (no lock method is entered at Ready) *)
       | Crashed => (a', sh, ACrashL, [])
       | _ => (a', sh, ANext (AL c lp'), [])
       end
